@@ -7,38 +7,16 @@
 package main
 
 import (
-	"log/slog"
-	"net"
 	"testing"
 
-	"example.com/scion-time/core/client"
-	"example.com/scion-time/core/sync"
-	"example.com/scion-time/net/scion"
-	"example.com/scion-time/net/udp"
-
 	"verif.local/sim/simcore"
-	"verif.local/sim/worlds"
+	_ "verif.local/sim/worlds" // registers the worlds
 )
 
-// TestVerifSim is the single entry point of the simulator binary. The hooks give
-// the worlds the repository's own wiring functions (package main).
+// TestVerifSim is the single entry point of the simulator binary. The repository's own
+// wiring functions (package main) reach the worlds through the hook files next to this
+// one, each under its own build tag, so that a tree in which one of those functions was
+// renamed or re-shaped still yields a simulator - without the runs that need that hook.
 func TestVerifSim(t *testing.T) {
-	worlds.Root = worlds.RootHooks{
-		ConfigureIPClientNTS: configureIPClientNTS,
-		NewNTPReferenceClockIP: func(log *slog.Logger, localAddr, remoteAddr *net.UDPAddr, dscp uint8, authModes []string,
-			ntskeServer string, insecureSkipVerify bool) client.ReferenceClock {
-			return newNTPReferenceClockIP(log, localAddr, remoteAddr, dscp, authModes, ntskeServer, insecureSkipVerify)
-		},
-		DefaultSyncConfig: func() sync.Config { return syncConfig(svcConfig{}) },
-		NewNTPReferenceClockSCION: func(log *slog.Logger, localAddr, remoteAddr udp.UDPAddr, dscp uint8, pather *scion.Pather) (client.ReferenceClock, []*client.SCIONClient) {
-			c := newNTPReferenceClockSCION(log, "", localAddr, remoteAddr, dscp, nil, "", false)
-			c.pather = pather
-			return c, c.ntpcs[:]
-		},
-		SyncConfigFrom: func(refImpact, peerImpact, cutoffSec, timeoutSec, intervalSec float64) sync.Config {
-			return syncConfig(svcConfig{ReferenceClockImpact: refImpact, PeerClockImpact: peerImpact, PeerClockCutoff: cutoffSec,
-				SyncTimeout: timeoutSec, SyncInterval: intervalSec})
-		},
-	}
 	simcore.WorkerMain(t)
 }
